@@ -962,6 +962,54 @@ func optionParams(c ssa.CallInstruction) map[*ssa.Parameter]AV {
 	return out
 }
 
+// mentionsStatusCode: the condition reads the StatusCode field of an *http.Response.
+func mentionsStatusCode(v ssa.Value, depth int) bool {
+	if depth > 5 {
+		return false
+	}
+	switch x := v.(type) {
+	case *ssa.BinOp:
+		return mentionsStatusCode(x.X, depth+1) || mentionsStatusCode(x.Y, depth+1)
+	case *ssa.UnOp:
+		if x.Op == token.MUL {
+			if fa, ok := x.X.(*ssa.FieldAddr); ok {
+				if pt, ok := fa.X.Type().Underlying().(*types.Pointer); ok && isNamed(pt.Elem(), "net/http", "Response") {
+					return pt.Elem().Underlying().(*types.Struct).Field(fa.Field).Name() == "StatusCode"
+				}
+			}
+			return false
+		}
+		return mentionsStatusCode(x.X, depth+1)
+	case *ssa.Convert:
+		return mentionsStatusCode(x.X, depth+1)
+	case *ssa.Phi:
+		for _, ed := range x.Edges {
+			if mentionsStatusCode(ed, depth+1) {
+				return true
+			}
+		}
+	}
+	return false
+}
+
+// mentionsLen: the condition compares a len(…) with something.
+func mentionsLen(v ssa.Value, depth int) bool {
+	if depth > 4 {
+		return false
+	}
+	switch x := v.(type) {
+	case *ssa.BinOp:
+		return mentionsLen(x.X, depth+1) || mentionsLen(x.Y, depth+1)
+	case *ssa.UnOp:
+		return x.Op != token.MUL && mentionsLen(x.X, depth+1)
+	case *ssa.Convert:
+		return mentionsLen(x.X, depth+1)
+	case *ssa.Call:
+		return isBuiltinCall(x, "len")
+	}
+	return false
+}
+
 // statusGate: where the generator looks at the status code of the response, an answer of 200
 // must be able to reach a return that does not certainly fail (a test written the wrong way
 // round refuses every good download).  One obligation per function that reads the field.
@@ -1205,6 +1253,20 @@ func (a *Analysis) ruleW2(upd *ssa.Function) {
 		} else {
 			r.OK("W2", fk+"/scanner-error", a.P.InstrPos(scanErrSite), "", "the scanner's Err() is examined (it must be nil wherever the function reports success)")
 		}
+	case words.Fn == "strings.Split" && words.NonEmpty:
+		// the non-empty pieces of the split (a filter loop before the template)
+		sep, _ := words.Sep.(StrV)
+		in, _ := words.In.(StrV)
+		switch {
+		case sep.Kind != skConst || sep.S != "\n":
+			r.Bad("W2", fk+"/pipeline", a.P.InstrPos(words.Site), "", "the downloaded text is split on %v, not on \"\\n\"", words.Sep)
+		case in.Kind != skSrc || in.S != "download":
+			r.Bad("W2", fk+"/pipeline", a.P.InstrPos(words.Site), "", "the text given to strings.Split is %v, not the downloaded bytes converted to string: something transforms the words (or they do not come from the download)", words.In)
+		default:
+			url = in.X
+			a.genWordsNonEmpty = true
+			r.OK("W2", fk+"/pipeline", ep, "", "field %s = the non-empty pieces of strings.Split(string(ReadAll(Get(url).Body)), \"\\n\"), in order, nothing else in between", wordsField)
+		}
 	case words.Fn != "strings.Split":
 		r.Bad("W2", fk+"/pipeline", a.P.InstrPos(words.Site), "", "the downloaded text is cut up by %s, not by strings.Split on \"\\n\"", words.Fn)
 	default:
@@ -1436,6 +1498,30 @@ func (a *Analysis) ruleW2(upd *ssa.Function) {
 		ev := asErr(x.Vals[0])
 		certainlyFails := ev.Kind == ekFresh || ev.Kind == ekSentinel || ev.Kind == ekWrap || ev.NonNil
 		if certainlyFails {
+			// a refusal: some step must be known to have failed on the way here, or the exit is
+			// taken on a recognised ground (the status code, more bytes than the limit read) —
+			// otherwise a good download of some list can be turned away
+			failed := false
+			for _, o := range e.errObj {
+				if c, ok := x.State[o].(CellC); ok {
+					if b, ok := c.V.(BoolV); ok && b.Known && !b.Val {
+						failed = true
+					}
+				}
+			}
+			ground := ""
+			for _, c := range x.Conds {
+				switch {
+				case mentionsStatusCode(c.If.Cond, 0):
+					ground = "the status code of the response"
+				case len(e.limited) > 0 && mentionsLen(c.If.Cond, 0):
+					ground = "the length read through the io.LimitReader"
+				}
+			}
+			if !failed && ground == "" {
+				okErr = false
+				r.Bad("W2", fk+"/refusal", a.P.InstrPos(x.Ret), "", "%s reports failure here although no step is known to have failed on the way and the exit is not taken on the status code or the size limit: a good download can be turned away", fk)
+			}
 			continue
 		}
 		// this exit may report success.  If what it returns is the error of one call, handed on
@@ -1731,6 +1817,44 @@ func (a *Analysis) ruleW3(exec *ssa.Call) {
 		fail("range", "the loop is %s, expected {{range .%s}} without else", rg.Pipe.String(), wordsName)
 		okAll = false
 	}
+	checkEntry := func(b []parse.Node, shown string) {
+		if len(b) != 3 {
+			fail("entry", "an entry is rendered by %d nodes, expected `\"` {{.}} `\",`", len(b))
+			okAll = false
+			return
+		}
+		q0, k0 := b[0].(*parse.TextNode)
+		act, k1 := b[1].(*parse.ActionNode)
+		q1, k2 := b[2].(*parse.TextNode)
+		if !(k0 && k1 && k2) || strings.TrimSpace(string(q0.Text)) != `"` || strings.TrimSpace(string(q1.Text)) != `",` || !isDotPipe(act.Pipe) {
+			fail("entry", "an entry is rendered as %s, expected `\"{{.}}\",` with no pipeline function", shown)
+			okAll = false
+		} else if !strings.HasSuffix(string(q0.Text), `"`) || !strings.HasPrefix(string(q1.Text), `"`) {
+			fail("entry", "white space between the quotes and the word would become part of the word")
+			okAll = false
+		}
+	}
+	if a.genWordsNonEmpty {
+		// the blank lines were dropped before the template runs (W2: the word slice holds the
+		// non-empty pieces only): the loop body is the entry itself, no {{if .}} needed
+		hasIf := false
+		for _, n := range rg.List.Nodes {
+			if _, ok := n.(*parse.IfNode); ok {
+				hasIf = true
+			}
+		}
+		if !hasIf {
+			checkEntry(rg.List.Nodes, rg.List.String())
+			if pkg != "text/template" && pkg != "html/template" {
+				fail("package", "template package %s", pkg)
+				okAll = false
+			}
+			if okAll {
+				r.OK("W3", "template/shape", ep, "", "%s: package wordlist; var {{.Variable}} = []string{ {{range .WordList}}\"{{.}}\",{{end}} } over a word slice without blank lines — one quoted entry per non-empty line, nothing else", pkg)
+			}
+			return
+		}
+	}
 	// body: [ws] If(.){ `"` Action(.) `",` } [ws]
 	var ifn *parse.IfNode
 	for _, n := range rg.List.Nodes {
@@ -1764,24 +1888,7 @@ func (a *Analysis) ruleW3(exec *ssa.Call) {
 			fail("blank-lines", "the guard is {{if %s}}, expected {{if .}} without else (drop blank lines and only blank lines)", ifn.Pipe.String())
 			okAll = false
 		}
-		b := ifn.List.Nodes
-		if len(b) != 3 {
-			fail("entry", "an entry is rendered by %d nodes, expected `\"` {{.}} `\",`", len(b))
-			okAll = false
-		} else {
-			q0, k0 := b[0].(*parse.TextNode)
-			act, k1 := b[1].(*parse.ActionNode)
-			q1, k2 := b[2].(*parse.TextNode)
-			if !(k0 && k1 && k2) || strings.TrimSpace(string(q0.Text)) != `"` || strings.TrimSpace(string(q1.Text)) != `",` || !isDotPipe(act.Pipe) {
-				fail("entry", "an entry is rendered as %s, expected `\"{{.}}\",` with no pipeline function", ifn.List.String())
-				okAll = false
-			} else if strings.TrimRight(string(q0.Text), " \t\n") != string(q0.Text) && false {
-				okAll = false
-			} else if !strings.HasSuffix(string(q0.Text), `"`) || !strings.HasPrefix(string(q1.Text), `"`) {
-				fail("entry", "white space between the quotes and the word would become part of the word")
-				okAll = false
-			}
-		}
+		checkEntry(ifn.List.Nodes, ifn.List.String())
 	}
 	if pkg != "text/template" && pkg != "html/template" {
 		fail("package", "template package %s", pkg)
